@@ -1,115 +1,7 @@
-import Ysshra.Drv.Common
-import Ysshra.Model.Gensign
-import Ysshra.Wire.JsonIO
+import Ysshra.Drv.GensignFmt
+import Ysshra.Spec.Gensign
 open Ysshra Ysshra.IO Ysshra.Gensign
 namespace Ysshra.Drv
-
-def kvOf (s : String) : List (String × String) :=
-  (s.splitOn ",").filterMap fun (f : String) =>
-    match f.splitOn "=" with
-    | k :: rest => some (k, String.intercalate "=" rest)
-    | [] => none
-
-def getKV (m : List (String × String)) (k : String) : String :=
-  ((m.find? (·.1 == k)).map (·.2)).getD ""
-
-def parseLKey (s : String) : Option Key :=
-  if s.startsWith "L" then (s.drop 1).toString.toNat?.map Key.registered else none
-
-def parseFile (s : String) : Option FileState :=
-  if s == "abs" then some .absent
-  else if s == "bad" then some .unparsable
-  else if s == "dir" then some .unreadable
-  else if s.startsWith "key:" then (parseLKey (s.drop 4).toString).map FileState.key
-  else none
-
-/-- config hook: algorithm given by name in any case, or by number -/
-def algoOfName (s : String) : Option Int :=
-  match s.toLower with
-  | "default" => some 0 | "unknown" => some 0 | "rsa" => some 1 | "dsa" => some 2 | "ecdsa" => some 3
-  | "ed25519" => some 4
-  | _ => s.toNat?.map Int.ofNat
-
-def parseKids (s : String) : Option (List (Int × Str)) :=
-  if s == "-" then some []
-  else (s.splitOn "+").mapM fun (e : String) =>
-    match e.splitOn ":" with
-    | [a, v] => do pure (← algoOfName a, ← strOfHex v)
-    | _ => none
-
-def parseHandler (s : String) : Option Handler :=
-  match s.splitOn ":" with
-  | ["reg"] => some .regular
-  | ["rej"] => some (.scripted .reject)
-  | ["apanic"] => some (.scripted .authPanic)
-  | ["npanic"] => some (.scripted .namePanicAfterReject)
-  | ["gpanic"] => some (.scripted .genPanic)
-  | ["gempty"] => some (.scripted .genEmpty)
-  | ["gerr", k] =>
-    let kind : Option ErrKind := match k with
-      | "invalidParams" => some .invalidParams | "handlerAuthN" => some .handlerAuthN
-      | "handlerGenCSR" => some .handlerGenCSR | "handlerConf" => some .handlerConf
-      | "allAuthFailed" => some .allAuthFailed | "signerSign" => some .signerSign
-      | "agentOpCert" => some .agentOpCert | "panic" => some .panic | "other" => some .other
-      | _ => none
-    kind.map fun k => .scripted (.genErr k)
-  | ["gkey", n, e, p] => do
-    let n ← n.toNat?
-    pure (.scripted (.genKey n (if e == "-" then none else some .other) (p == "1")))
-  | _ => none
-
-def parseCA (s : String) : Option (List CAReply) :=
-  if s == "-" then some []
-  else (s.splitOn "|").mapM fun (r : String) =>
-    match r.splitOn ":" with
-    | ["certs", n, m] => do pure (.certs (← n.toNat?) (← m.toNat?))
-    | ["foreign"] => some .foreign
-    | ["plain"] => some .plainKey
-    | ["err"] => some .err
-    | ["panic"] => some .panic
-    | _ => none
-
-def showErrKind : ErrKind → String
-  | .invalidParams => "invalidParams" | .handlerAuthN => "handlerAuthN" | .handlerGenCSR => "handlerGenCSR"
-  | .handlerConf => "handlerConf" | .allAuthFailed => "allAuthFailed" | .signerSign => "signerSign"
-  | .agentOpCert => "agentOpCert" | .panic => "panic" | .other => "other"
-
-/-- fresh keys are named by creation order -/
-def keyName (fresh : List Nat) : Key → String
-  | .registered n => if n ≥ 500 then "S" ++ toString n else "L" ++ toString n
-  | .fresh n => "f" ++ toString (fresh.idxOf n)
-
-def certName : Option CertV → String
-  | none => "-"
-  | some c => "c" ++ toString c.id
-
-def showEvent (fresh : List Nat) : Event → String
-  | .auth i => "auth:" ++ toString i
-  | .generate i => "gen:" ++ toString i
-  | .agentSign pk _ ok => "sign:" ++ keyName fresh pk ++ ":" ++ b01 ok
-  | .agentAdd k c lt cm ok => "add:" ++ keyName fresh k ++ ":" ++ certName c ++ ":" ++ toString lt ++ ":" ++
-      hexOrDash cm ++ ":" ++ b01 ok
-  | .agentList ok => "list:" ++ b01 ok
-  | .agentRemove k c ok => "rm:" ++ keyName fresh k ++ ":" ++ certName c ++ ":" ++ b01 ok
-  | .caSign k ok => "ca:" ++ keyName fresh k ++ ":" ++ b01 ok
-
-def freshOfTrace (acc : List Nat) (tr : Trace) : List Nat :=
-  tr.foldl (fun acc e => match e with
-    | .agentAdd (.fresh n) _ _ _ _ => if acc.contains n then acc else acc ++ [n]
-    | _ => acc) acc
-
-def insertS (x : String) : List String → List String
-  | [] => [x]
-  | y :: r => if x ≤ y then x :: y :: r else y :: insertS x r
-
-def showAgent (fresh : List Nat) (a : Agent) : String :=
-  "[" ++ String.intercalate "|" ((a.idents.map fun i =>
-    keyName fresh i.key ++ ":" ++ certName i.cert ++ ":" ++ hexOrDash i.comment).foldl (fun acc x => insertS x acc) []) ++ "]"
-
-def showCSR (fresh : List Nat) (c : CSR) : String :=
-  "meta=" ++ hexOfStr c.keyMeta ++ ",val=" ++ toString c.validity ++ ",prins=" ++ showStrList c.principals ++
-  ",exts=" ++ String.intercalate "+" (c.extensions.map fun e => hexOfStr e ++ "=-") ++
-  ",key=" ++ keyName fresh c.publicKey ++ ",kid=" ++ showJ (KeyID.toJ c.keyId)
 
 structure GsState where
   agent : Agent
@@ -119,7 +11,7 @@ structure GsState where
   /-- challenge of the last honest signature per key -/
   lastChal : List (Key × Nat)
 
-def runOne (st : GsState) (r : List (String × String)) : Option (GsState × String) := do
+def runOne (st : GsState) (r : List (String × String)) : Option (GsState × String × Spec.Gensign.RunIn) := do
   let get := getKV r
   let ln ← strOfHex (get "ln"); let tid ← strOfHex (get "tid"); let ip ← strOfHex (get "ip")
   let ru ← strOfHex (get "ru"); let rh ← strOfHex (get "rh")
@@ -167,7 +59,7 @@ def runOne (st : GsState) (r : List (String × String)) : Option (GsState × Str
     | .err k => showErrKind k
   let out := "res=" ++ resS ++ " tr=" ++ String.intercalate ">" (tr.map (showEvent fresh)) ++ " chal=" ++ chal ++
     " ag=" ++ showAgent fresh w'.agent ++ " csr=[" ++ String.intercalate "|" csrs ++ "]"
-  pure (⟨w'.agent, w'.rng, w'.lastCert, fresh, lastChal⟩, out)
+  pure (⟨w'.agent, w'.rng, w'.lastCert, fresh, lastChal⟩, out, ⟨p, conf, hs, get "ag", ca⟩)
 
 def parseInit (s : String) : Option (List AIdent × List Key × Nat) :=
   if s == "-" then some ([], [], 0)
@@ -194,16 +86,32 @@ def handleGensign (op : String) (args : List String) (impl : Option (List String
     | some (ids, holds, n) =>
       let _ := holds
       let st0 : GsState := ⟨⟨ids, .honest, 0, none, none⟩, 0, n, [], []⟩
-      let outs := (runsS.splitOn ";").foldl (fun (acc : Option (GsState × List String)) (r : String) =>
-        acc.bind fun (st, outs) => (runOne st (kvOf r)).map fun (st', o) => (st', outs ++ [o])) (some (st0, []))
+      let outs := (runsS.splitOn ";").foldl (fun (acc : Option (GsState × List String × List Spec.Gensign.RunIn)) (r : String) =>
+        acc.bind fun (st, outs, ins) => (runOne st (kvOf r)).map fun (st', o, i) => (st', outs ++ [o], ins ++ [i])) (some (st0, [], []))
       match outs with
       | none => some badProto
-      | some (_, outs) =>
+      | some (_, outs, ins) =>
         let model := [String.intercalate ";" outs]
+        -- the verdict judges the implementation's own observations, clause by clause
         some ⟨model, impl.map fun out =>
-          if out == model then "ok"
-          else if ((out.headD "").splitOn "crash").length > 1 then "bad:crash"
-          else "bad:gensign-run"⟩
+          if ((out.headD "").splitOn "crash").length > 1 then "bad:crash"
+          else
+            -- runs are separated by ";" (which also occurs inside the KeyID token tree)
+            let obs := (match (out.headD "").splitOn ";res=" with
+              | [] => []
+              | r :: rs => r :: rs.map ("res=" ++ ·)).map Spec.Gensign.parseRun
+            if obs.length != ins.length || obs.any (·.isNone) then "bad:protocol"
+            else
+              let pre0 : List Spec.Gensign.OIdent := ids.map fun x =>
+                ⟨keyName [] x.key, certName x.cert, hexOrDash x.comment⟩
+              let (_, _, bad) := (ins.zip (obs.filterMap id)).foldl
+                (fun (acc : List Spec.Gensign.OIdent × List String × List String) (io : Spec.Gensign.RunIn × Spec.Gensign.ORun) =>
+                  let (pre, used, bad) := acc
+                  let (i, o) := io
+                  let used' := used ++ pre.map (·.key) ++ o.csrs.map Spec.Gensign.csrKey
+                  (o.ag, used', bad ++ Spec.Gensign.clauses i pre (used ++ pre.map (·.key)) o))
+                (pre0, [], [])
+              if bad.isEmpty then "ok" else "bad:" ++ String.intercalate "," bad.eraseDups⟩
   | _, _ => none
 
 end Ysshra.Drv
